@@ -18,9 +18,30 @@
 -/
 import Xandikos.Theorems.C10
 import Xandikos.Ical.IndexProofs
+import Xandikos.Ical.EscapeProofs
+import Xandikos.Tie.UnescapeEq
 
 namespace Xandikos.Theorems.C10Ical
 open Xandikos Xandikos.Py Xandikos.Store.Index Xandikos.Ical Xandikos.Theorems.C10
+
+/-- **the code is the model**: `icalendar._unescape_text`, as translated from /repo on this run
+    (an index-scan `while` loop over `text[i]`), computes `Ical.unescapeText` on every text —
+    it raises no IndexError and terminates within `len(text) + 1` iterations -/
+theorem code_is_model_unescape (text : List Char) (split : Bool) :
+    Generated.unescape_text text split = .ok (unescapeText split text) :=
+  Tie.unescape_text_eq text split
+
+/-- **TEXT round trip on the code as it stands**: what the translated `_unescape_text` reads back
+    from the index value the library writes for a clean text is that text -/
+theorem code_unescapes_what_the_library_escapes (s : List Char) (h : Clean s) :
+    Generated.unescape_text (escapeText s) false = .ok [s] := by
+  rw [Tie.unescape_text_eq, unescape_escape s h]
+
+/-- **CATEGORIES round trip on the code as it stands** -/
+theorem code_unescapes_categories (cats : List (List Char)) (hne : cats ≠ [])
+    (h : ∀ c ∈ cats, Clean c) :
+    Generated.unescape_text (joinComma (cats.map escapeText)) true = .ok cats := by
+  rw [Tie.unescape_text_eq, unescape_escape_cats cats hne h]
 
 /-- a member is listed when the evaluation returns `True`; an exception (a 500 for the whole
     REPORT in the real server) does not occur on the class at hand (`Ical.check_total`) -/
